@@ -36,6 +36,9 @@ why_missed = {
  "S140": "no builder that fails a build, is corrected and is built again", "S144": "only == was evaluated, never !=", "S145": "no initial record at 2^63-1 (a panic there is a C03 event: caught by C03's dev layer once the start value existed)",
  "S149": "threads only decoded bytes, they never parsed texts", "S150": "no owned String with excess capacity through from_value", "S151": "the 'invalid' 33-byte secp256k1 entry of the two-key workload (02 02 .. 02) is in fact a curve point",
  "S152": "no workload with several threads that each use a different key",
+ "S153": "deeply nested values only through the raw entry points, never as an oversized decoder input; an abort while decoding was a C03 event only", "S155": "no run of 2^16 rejected inputs on one thread (needs the debug layer)",
+ "S156": "clone_from only between records of equal signature length", "S161": "remove_insert was always given slice iterators (exact size hints)", "S162": "signers returned errors but never panicked",
+ "S163": "Debug only without formatter flags and never nested in another value's pretty Debug", "S165": "NodeId == [u8; 32] only against the id's own bytes and single-byte changes",
  "S77": "multi-byte characters only at one offset and length", "S78": "only 9 non-hex characters tried", "S80": "no back-to-back imports of permuted seeds", "S81": "no text-looking secrets", "S84": "no non-canonical small-order ed25519 encodings",
 }
 rows = []
